@@ -71,7 +71,11 @@ CONFIG = {
     "coq_dirs": ["theories/Clock"],
     "coq_targets": ["theories/Clock/Properties.vo", "theories/Clock/Corr.vo"],
     "properties_files": ["theories/Clock/Properties.v"],
-    "required_theorems": ["accounting_exact"],
+    "required_theorems": [
+        "accounting_exact", "monitor_accepts_model", "deadline_sound", "within_budget_not_cancelled",
+        "canceled_only_on_request", "reported_duration_exact", "deadline_wall_bound_progress",
+        "deadline_wall_bound", "deadline_complete", "rearm_bounded", "rearm_unbounded_at_zero_threshold",
+    ],
     "harnesses": [
         {"cmd": "clock", "cases_quick": 400, "cases_thorough": 12000, "shards_quick": 8, "shards_thorough": 32},
     ],
